@@ -68,7 +68,7 @@ m("M83", ["C06", "C07"], "compiler/compiler.go", "\t\tif !insideRange(literalRan
 # ---- literals (C07)
 m("M30", ["C07"], "lexer/helpers.go", "\tif ch >= 'A' && ch <= 'F' {\n\t\treturn int(ch - 'A' + 10)", "\tif ch >= 'A' && ch <= 'F' {\n\t\treturn int(ch - 'A' + 11)", note="upper-case hex digits off by one")
 m("M31", ["C07"], "lexer/helpers.go", "} else if codePoint <= 0x7FF {", "} else if codePoint <= 0x7FE {", note="U+07FF encoded with three bytes")
-m("M32", ["C07"], "lexer/lexer.go", "if !isHexDigit(nextChar) || len(hexDigits) >= 6 {", "if !isHexDigit(nextChar) || len(hexDigits) >= 5 {", note="\\u{...} limited to 5 digits")
+m("M32", ["C07"], "lexer/lexer.go", "if !isHexDigit(nextChar) || len(hexDigits) >= 6 {", "if !isHexDigit(nextChar) || len(hexDigits) >= 5 {", expect="either", note="\\u{...} limited to 5 digits: equivalent - the lexer then keeps the escape as raw text and the printer passes raw escape text through unchanged, so the emitted literal is identical")
 m("M33", ["C07", "C01"], "lexer/lexer.go", "\t\t\t\tresult.WriteByte('\\\\')\n\t\t\t\tl.ReadChar()\n\t\t\t\tresult.WriteByte(l.CurrentChar)\n\t\t\t\tcontinue", "\t\t\t\tresult.WriteByte('\\\\')\n\t\t\t\tl.ReadChar()\n\t\t\t\tcontinue", note="raw string drops the character after a backslash")
 m("M34", ["C07", "C10"], "lexer/lexer.go", "\t\tif l.CurrentChar == '+' || l.CurrentChar == '-' {\n\t\t\tl.ReadChar() // consume the sign\n\t\t}", "\t\tif l.CurrentChar == '+' {\n\t\t\tl.ReadChar() // consume the sign\n\t\t}", note="negative exponent sign not consumed")
 m("M84", ["C07"], "lexer/helpers.go", "\tcase '\"', '\\'', '\\\\', '\\n', '\\r', 0x2028, 0x2029:", "\tcase '\"', '\\'', '\\\\', '\\n', 0x2028, 0x2029:", note="decoded CR written raw into string literals")
